@@ -28,6 +28,9 @@ def load_extra():
         HOOK_COMMITS[:] = d.get("hook_commits", HOOK_COMMITS)
 load_extra()
 ids = sorted(CHECKS)
+for k in ["C%02d" % i for i in range(1, 21)]:
+    if k not in CHECKS and k not in NOT_YET:
+        NOT_YET[k] = "not claimed yet: the machinery for this property is still being built (the technique applies; design in DESIGN.md section 5)"
 m = {
  "version": 1,
  "setup_cmd": "./check setup",
